@@ -1798,6 +1798,8 @@ class UserSpaceImpl(*_user_space_impl_base):
     def del_ref(self, name):
 
         if name in self.own_refs:
+            if self.own_refs[name].is_derived():
+                raise ValueError("cannot delete derived")
             self.model.refmgr.del_ref(self, name)
         elif name in self.is_derived():
             raise KeyError("Derived ref '%s' cannot be deleted" % name)
